@@ -19,19 +19,20 @@ import (
 )
 
 type Script struct {
-	ID        string              `json:"id"`
-	ReadSizes []int               `json:"read_sizes,omitempty"`
-	Status    int                 `json:"status,omitempty"`
-	Header    map[string][]string `json:"header,omitempty"`
-	Chunks    [][]byte            `json:"chunks,omitempty"`
-	Flush     []bool              `json:"flush,omitempty"`
-	NoWrite   bool                `json:"no_write,omitempty"`
-	Ret       int                 `json:"ret"`
-	Err       string              `json:"err,omitempty"`
-	Panic     string              `json:"panic,omitempty"`      // "", "before", "after"
-	PanicWith string              `json:"panic_with,omitempty"` // "" (a string), "error", "runtime", "abort" (http.ErrAbortHandler)
-	EchoBody  bool                `json:"echo_body,omitempty"`
-	PauseMs   int                 `json:"pause_ms,omitempty"` // sleep after every chunk (keeps the handler in flight)
+	ID         string              `json:"id"`
+	ReadSizes  []int               `json:"read_sizes,omitempty"`
+	Status     int                 `json:"status,omitempty"`
+	Header     map[string][]string `json:"header,omitempty"`
+	Chunks     [][]byte            `json:"chunks,omitempty"`
+	Flush      []bool              `json:"flush,omitempty"`
+	NoWrite    bool                `json:"no_write,omitempty"`
+	Ret        int                 `json:"ret"`
+	Err        string              `json:"err,omitempty"`
+	Panic      string              `json:"panic,omitempty"`       // "", "before", "after"
+	FlushFirst bool                `json:"flush_first,omitempty"` // call Flush before setting any header or writing
+	PanicWith  string              `json:"panic_with,omitempty"`  // "" (a string), "error", "runtime", "abort" (http.ErrAbortHandler)
+	EchoBody   bool                `json:"echo_body,omitempty"`
+	PauseMs    int                 `json:"pause_ms,omitempty"` // sleep after every chunk (keeps the handler in flight)
 }
 
 type Result struct {
@@ -151,6 +152,11 @@ func (h handler) ServeHTTP(w http.ResponseWriter, r *http.Request) (int, error) 
 		panicWith(s.PanicWith, "zz_probe: scripted panic before writing")
 	}
 	if !s.NoWrite {
+		if s.FlushFirst {
+			if f, ok := w.(http.Flusher); ok {
+				f.Flush()
+			}
+		}
 		for k, vv := range s.Header {
 			for _, v := range vv {
 				w.Header().Add(k, v)
